@@ -273,6 +273,18 @@ def r4(ctx):
                        "items flow through %s into a closure that emits on every path" % sorted({x[1].name for x in ad} | {pc.name}) if not drop and not skip else
                        "an item can be dropped (%s) before %s" % (drop or "a path through the closure avoids the emit", en), where=g.loc())
             missing = [e for e in emits if e not in found]
+            if missing and f.name == "get_diagnostics":
+                # the same thing as one expression: `matches.into_iter().flat_map(|(rule, ms)| ms.into_iter().map(..)).collect()`
+                ok_chain, names = returned_pipeline(prog, f)
+                if ok_chain is not None:
+                    nloops += 1
+                    npipes += 1
+                    ctx.ob("R4", "%s/every item reaches %s" % (short, "|".join(emits)), ok_chain,
+                           "the returned diagnostics are collected from the scan result through %s — no element-dropping adaptor" % names if ok_chain else
+                           "the returned diagnostics pass through a dropping adaptor (%s)" % names, where=f.loc())
+                    ctx.ob("R4", "%s/pipeline into extend#0" % short, ok_chain, "one expression: %s" % names, where=f.loc(), nontrivial=False)
+                    missing = []
+                    pipes = []
             ctx.ob("R4", "%s/loops found" % short, not missing, "loops driving %s identified" % emits if not missing else "no next()-driven loop around %s (anchor lost: fail closed)" % missing, where=f.loc(), nontrivial=False)
         for sink, ai in pipes:
             calls = [c for g in prog.family(f) for c in g.calls if c.name == sink and c.bb in g.live_blocks and len(c.args) > ai]
@@ -326,3 +338,36 @@ def r5(ctx):
         news = [c for c in df.calls if c.best.endswith("MatchJSON::<'a>::new")]
         wr = [1 for bi in df.live_blocks for st in df.blocks[bi]["s"] if st[0] == "A" and "range" in field_path(st[1][1]) and ".range|ast_grep::print::json_print::MatchJSON" in repr(st[1])]
         ctx.ob("R5", "MatchJSON::diff keeps the match's range", bool(news) and not wr, "diff() starts from MatchJSON::new(node_match) and does not overwrite `range` (replacement offsets live in their own field)", where=df.loc())
+
+
+def returned_pipeline(prog, f):
+    """for a function returning Some(collection): (no dropping adaptor on the way from its sources, adaptor names); flat_map is
+    accepted when the iterator its closure returns has no dropping adaptor either.  (None, …) if the shape is not recognised."""
+    ops = []
+    for bi in sorted(f.live_blocks):
+        for st in f.blocks[bi]["s"]:
+            if st[0] == "A" and st[1][0] == 0 and not st[1][1] and st[2][0] == "agg" and st[2][1].get("variant") == "Some" and st[2][2]:
+                ops.append(st[2][2][0])
+    if len(ops) != 1:
+        return None, []
+    ad, lv = iter_chain(prog, f, ops[0])
+    names = sorted({x[1].name for x in ad})
+    if "collect" not in names:
+        return None, names
+    bad = set(names) & (DROPPING_ITER - {"flat_map"})
+    for ff, c in ad:
+        if c.name == "flat_map":
+            for g in prog.closures_of(ff):
+                cons = None
+                from ..query import closure_consumer
+                cons = closure_consumer(prog, g)
+                if cons and cons[1] is c:
+                    # what the closure returns
+                    for bi in sorted(g.live_blocks):
+                        c2 = g.call_at(bi)
+                        if c2 is not None and c2.dest and c2.dest[0] == 0:
+                            ad2, _ = iter_chain(prog, g, c2.args[0]) if c2.args else ([], [])
+                            inner = {c2.name} | {x[1].name for x in ad2}
+                            names += sorted(inner)
+                            bad |= (inner - {"flat_map"}) & DROPPING_ITER
+    return not bad, sorted(set(names))
